@@ -7,6 +7,13 @@ mod util;
 mod c20;
 mod c02;
 mod c08;
+mod formats;
+mod allocrec;
+mod dump;
+mod c06;
+
+#[global_allocator]
+static GLOBAL: allocrec::Rec = allocrec::Rec;
 
 use std::io::Write;
 
@@ -17,6 +24,7 @@ fn main() {
         std::process::exit(2);
     }
     let prop = args[1].as_str();
+    if prop == "dump" { dump::run(&args[4]); return; }
     let tier = args[2].as_str();
     let seed: u64 = args[3].parse().expect("seed");
     let out_path = &args[4];
@@ -28,6 +36,7 @@ fn main() {
         "C20" => c20::run(&mut out, tier, seed, corpus.as_deref()),
         "C02" => c02::run(&mut out, tier, seed, corpus.as_deref()),
         "C08" => c08::run(&mut out, tier, seed, corpus.as_deref()),
+        "C06" | "C07" => c06::run(&mut out, tier, seed, corpus.as_deref(), prop),
         _ => {
             eprintln!("unknown property {prop}");
             std::process::exit(2);
